@@ -323,9 +323,22 @@ func (r *run) checkImported(i int, viaRoot bool) bool {
 				if r.c5 != nil && !r.c5.denied("Script:"+rec.Kind, func() error { _, err := msa.Script(); return err }) {
 					return false
 				}
+				if t, ok := obj.(waddrmgr.ManagedTaprootScriptAddress); ok && r.c5 != nil && rec.Kind == "tapscript" {
+					// the decoded script tree is the same secret in another form
+					if !r.c5.denied("TaprootScript", func() error { _, err := t.TaprootScript(); return err }) {
+						return false
+					}
+				}
 				continue
 			}
 			if !c3 {
+				if t, ok := obj.(waddrmgr.ManagedTaprootScriptAddress); ok && r.c5 != nil && !r.locked && rec.Kind == "tapscript" {
+					// use the accessor while it is allowed, on the very objects
+					// that are probed again after the next Lock
+					if _, err := t.TaprootScript(); err == nil {
+						r.env.Count("probe.tapscript-read-while-unlocked")
+					}
+				}
 				continue
 			}
 			script, err := msa.Script()
